@@ -417,12 +417,12 @@ impl Prop for C06 {
         150
     }
     fn rule(&self) -> String {
-        "evaluation = one API call (is_match, replace_all, tokenize and analyze driven to exhaustion plus three extra next() calls) under a CPU-time watchdog; non-trivial = compiled pattern from the quantifier-heavy generators on a non-empty input; distinct = distinct (pattern, flags, input). Bounded observation: a call counts as non-terminating when it exceeds 0.5 s of CPU with all inputs, then 10 s with that input alone, and, on the minimal input still exceeding it, every single-character deletion returns in < 2 ms (so exponential but finite backtracking, which grows by a bounded factor per character, is not reported); normal cost < 1 ms, the maximum seen is reported as max_job_wall_us".into()
+        "evaluation = one API call (is_match, replace_all, tokenize and analyze driven to exhaustion plus three extra next() calls) under a CPU-time watchdog; non-trivial = compiled pattern from the quantifier-heavy generators on a non-empty input; distinct = distinct (pattern, flags, input). Bounded observation: a call counts as non-terminating when it exceeds 0.5 s of CPU with all inputs, then with that input alone, and, on the minimal input still exceeding 2 s (found by deleting chunks, then single characters), the call exceeds 10 s while every single-character deletion returns in < 2 ms both normally and with all compile-time optimisations off (so exponential but finite backtracking, which grows by a bounded factor per character, is not reported, even when a required-literal shortcut makes its neighbours return at once); normal cost < 1 ms, the maximum seen is reported as max_job_wall_us".into()
     }
     fn guards(&self) -> Vec<Guard> {
         vec![Guard { label: "compile=ok".into(), of: "".into(), min_fraction: 0.5 }, Guard { label: "tokenize=ok".into(), of: "".into(), min_fraction: 0.2 }]
     }
     fn assumptions(&self) -> Vec<String> {
-        vec!["termination is observed, not proved: inputs <= 8 characters, quantifier nesting <= 2 (3 in the shapes part), counted bounds <= 3".into()]
+        vec!["termination is observed, not proved: inputs <= 8 characters (<= 160 in the scaled part, whose quantifiers are over single characters), quantifier nesting <= 2 (3 in the shapes part), counted bounds <= 3 (<= 40 in the scaled part)".into()]
     }
 }
